@@ -3,6 +3,7 @@ package main
 // Incremental SMT solver session over a pipe (z3 -in, or cvc5 --incremental).
 
 import (
+	"os"
 	"bufio"
 	"fmt"
 	"io"
@@ -198,6 +199,9 @@ func (s *Solver) Check(extra *Term, wantModel bool) (SatResult, map[string]uint6
 		if strings.HasPrefix(line, "(error") {
 			sawErr = true
 			s.errN++
+			if os.Getenv("GOSYM_DEBUG") != "" || s.errN <= 2 {
+				fmt.Fprintf(os.Stderr, "gosym: solver error line: %s\n", line)
+			}
 			continue
 		}
 		if line == "sat" || line == "unsat" || line == "unknown" {
